@@ -48,6 +48,11 @@ def run(ctx):
         'int f(int n,int x,int y){ int i; for (i = 0; i < n; i++) { x = x + y; } }',
         'int f(int n,int x,int y,int z){ int i; for (i = 0; i < n; i++) { if (x < y) { x = y; } else { z = z + y; } } x = x * z; }',
         'int f(int x,int y,int z,int w){ if (x < y) { x = y * z; } else { x = w; } while (w < z) { w = x; } }',
+        # a value that needs three iterations to travel s -> k1 -> k2 -> d, every stage updated conditionally, every
+        # shortcut cell already holding a direct copy: the last round of the closure only appends monomials
+        'int f(int n,int c,int s,int g,int e,int k1,int k2,int d){ int i; for (i = 0; i < n; i++) { if (c) { d = s; } if (c) { d = g; } if (c) { d = k1; } if (c) { d = k2 + e; } if (c) { k2 = s; } if (c) { k2 = g; } if (c) { k2 = k1 * k1; } if (c) { k1 = s + g; } } }',
+        'int f(int n,int c,int s,int g,int k1,int k2,int d){ int i; for (i = 0; i < n; i++) { if (c) { d = k2; } if (c) { k2 = k1 * k1; } if (c) { k1 = s + g; } } }',
+        'int f(int n,int a,int b,int c,int d,int g,int h){ int i; for (i = 0; i < n; i++) { if (g) { d = b; } else { if (h) { d = a; } else { d = c; } } if (g) { c = a; } else { c = b + b; } b = a; } }',
         # accumulator read by a second operation: the guard must appear in the bound at EVERY valid choice
         'int f(int n,int x1,int x3,int x4,int x5){ int i; for (i = 0; i < n; i++) { x1 = x1 + x3; x5 = x1 + x4; } }',
         'int f(int n,int a,int b,int c){ int i; for (i = 0; i < n; i++) { a = a + b; c = a * a; } }',
@@ -85,6 +90,13 @@ def run(ctx):
         nd = n_decisions(src)
         K = 6 if nd <= 1 else (3 if nd == 2 else (2 if nd <= 4 else 1))
         paths = gen_paths(rng, nd, K, ctx.budget(40, 300))
+        n_loops = src.count('while (') + src.count('for (')
+        if n_loops == 1 and nd > 1:
+            # one loop with branches inside: the decisions of a path are consumed in execution order, so a long
+            # path of values 0..4 (0 = else / no iteration) gives the loop 0..4 iterations AND varies the branch
+            # taken in every iteration -- flows that need several iterations with particular branches become reachable
+            for _ in range(ctx.budget(60, 300)):
+                paths.append([rng.choice([3, 4, 2, 3, 4, 1, 0])] + [rng.choice([1, 1, 1, 0, 2]) for _ in range(8 * nd + 8)])
         ctx.case(src, nontrivial=(('while' in src or 'for (' in src) and len(bounds) >= 2),
                  sample={'src': src, 'valid_choices': len(bounds), 'paths': len(paths)})
         ctx.count('valid_choices', len(bounds))
